@@ -15,7 +15,7 @@ Lemma wf_cont_items i c a al items : wf (OCont i c a al items) = items_ok i item
 Proof. apply wf_cont. Qed.
 Lemma wf_pair k v : wf (OPair k v) = wf_opt k && wf_opt v.
 Proof. reflexivity. Qed.
-Lemma wf_tok a b c : wf (OTok a b c) = wf_opt a && wf_opt b && wf_opt c.
+Lemma wf_tok a b c ch : wf (OTok a b c ch) = wf_opt a && wf_opt b && wf_opt c.
 Proof. reflexivity. Qed.
 Lemma wf_url_items s cs : wf (OUrl s cs) = forallb wf_opt cs.
 Proof. apply wf_url. Qed.
